@@ -9,3 +9,10 @@ pub assume_specification<T: Ord> [core::cmp::min] (a: T, b: T) -> (r: T)
 // ASSUMED (std documentation): Ord::clamp(self, min, max) (panics if min > max)
 pub assume_specification [<usize as core::cmp::Ord>::clamp] (v: usize, lo: usize, hi: usize) -> (r: usize)
     ensures lo <= hi ==> r == (if v < lo { lo } else if v > hi { hi } else { v });
+
+// ASSUMED (std documentation): Ordering::then chains two orderings
+pub assume_specification [core::cmp::Ordering::then] (a: core::cmp::Ordering, b: core::cmp::Ordering) -> (r: core::cmp::Ordering)
+    ensures r == (if a == core::cmp::Ordering::Equal { b } else { a });
+
+pub assume_specification [core::cmp::Ordering::reverse] (a: core::cmp::Ordering) -> (r: core::cmp::Ordering)
+    ensures r == (match a { core::cmp::Ordering::Less => core::cmp::Ordering::Greater, core::cmp::Ordering::Equal => core::cmp::Ordering::Equal, core::cmp::Ordering::Greater => core::cmp::Ordering::Less });
